@@ -2,6 +2,7 @@
 probes the dispatcher with every registered name, names one edit away and private member names.
 usage: registry.py SCENARIOS.json TRACES.json"""
 import asyncio
+import functools
 import json
 import zlib
 import logging
@@ -36,6 +37,11 @@ class V(ViewMixin):
     def put(self):
         LOG.append(type(self).__name__ + '_put')
         return 'put'
+
+    @functools.lru_cache(maxsize=1)         # a public callable that is not a plain function (a wrapper object)
+    def memo(self):
+        LOG.append(type(self).__name__ + '_memo')
+        return 'memo'
 
     def _hid(self):
         LOG.append(type(self).__name__ + '__hid')
